@@ -2,4 +2,12 @@ package main
 
 import "qedverif/cq"
 
-func dispatch8(cmd string, out *cq.Out, seed uint64, tier, arg string) bool { return false }
+func dispatch8(cmd string, out *cq.Out, seed uint64, tier, arg string) bool {
+	switch cmd {
+	case "http":
+		httpCmd(out, seed, tier)
+	default:
+		return dispatch9(cmd, out, seed, tier, arg)
+	}
+	return true
+}
